@@ -127,6 +127,10 @@ def rebuild_summary():
         mp = os.path.join(base, d, "meta.json")
         if os.path.exists(mp):
             m = json.load(open(mp))
+            if m.get("kind") == "refactoring":
+                rows.append({"id": m["id"], "kind": "refactoring", "confirmed_behaviour_preserving": m.get("confirmed_behaviour_preserving"),
+                             "checks_not_silent": sorted(m.get("checks_not_silent", {}))})
+                continue
             rows.append({"id": m["id"], "round": m.get("round", 1), "confirmed": m["confirmation"].get("confirmed"),
                          "caught_by_own": m.get("caught_by_own_property_check"), "caught_by": m.get("caught_by")})
     json.dump(rows, open(os.path.join(base, "SUMMARY.json"), "w"), indent=1)
@@ -140,6 +144,8 @@ def recheck(only):
         if not os.path.exists(mp) or (only and d not in only and d.split("-")[0] not in only):
             continue
         meta = json.load(open(mp))
+        if meta.get("kind") == "refactoring":
+            continue          # behaviour-preserving refactorings are handled by tools/recheck_refactors.py
         pid = meta["property"]
         checks = run_checks(pid, os.path.join(base, d, "patch.diff"))
         meta["checks_that_fire"] = checks
